@@ -136,6 +136,16 @@ CHECKS = {
         "note": "c2r transforms with a length-1 last axis and no explicit length are excluded (the references disagree among themselves there)",
         "technique": "property-based testing: differential against numpy.fft/scipy.fft; exact-rational label model for STFT",
     },
+    "C14": {
+        "text": "Rule-based state machine over a pool of signals on writable NumPy buffers (contiguous, strided along time or the last axis, Fortran order) "
+                "and of array/Quantity/DM/chirp argument objects: any applicable operation of the 26-operation catalogue is applied to any pool member, "
+                "earlier argument objects are re-used, calls that raise are made; results (often views of inputs) join the pool and every member is compared "
+                "bytes-and-metadata with its creation snapshot after every step. A second sub-check calls every catalogue operation at a uniform rate on "
+                "fresh signals, incl. shifts below the 1e-8 'no shift' threshold and repeated calls with the same argument object. Exploration.",
+        "ref": "DESIGN.md section 4 C14",
+        "note": "snapshot = dtype, shape, strides, data bytes, every metadata attribute, deep copy of meta; no rule uses out= or in-place operators",
+        "technique": "property-based testing: Hypothesis RuleBasedStateMachine with a snapshot invariant over all inputs and outputs",
+    },
     "C15": {
         "text": "Generated phase arrays (ties, near-ties down to 2^-52 at counts to 2^52, lanes of different magnitude, mixed signs; 1-d/2-d) against exact "
                 "rational order: the six comparison operators vs Phase/number/Quantity in both orders; min/max/argmin/argmax/sort/argsort/ptp (methods and "
